@@ -89,11 +89,40 @@ verif_native_assert(int c, const char * txt)
 	if (!c) { printf("VERIF-NATIVE-ASSERT-FAILED %s\n", txt); fflush(stdout); }
 }
 
+/*
+ * Allocation-failure replay: the counterexample's sequence of should_malloc_fail decisions (one per malloc /
+ * realloc / calloc call of CBMC's library models, in call order) is re-applied to the k-th native allocation call.
+ */
+static int armed;
+static int
+next_alloc_fails(void)
+{
+	size_t i;
+
+	if (!armed)
+		return (0);
+	for (i = 0; i < ntab; i++)
+		if (!strcmp(tab[i].k, "should_malloc_fail") && !tab[i].used) {
+			tab[i].used = 1;
+			return (parse(tab[i].v) != 0);
+		}
+	return (0);
+}
+void * __real_malloc(size_t);
+void * __real_realloc(void *, size_t);
+void * __real_calloc(size_t, size_t);
+void * __wrap_malloc(size_t n) { return (next_alloc_fails() ? NULL : __real_malloc(n)); }
+void * __wrap_realloc(void * p, size_t n) { return (next_alloc_fails() ? NULL : __real_realloc(p, n)); }
+void * __wrap_calloc(size_t a, size_t b) { return (next_alloc_fails() ? NULL : __real_calloc(a, b)); }
+
 void VERIF_ENTRY(void);
 int
 main(void)
 {
+	load();
+	armed = 1;
 	VERIF_ENTRY();
+	armed = 0;
 	printf("VERIF-NATIVE-DONE\n");
 	return 0;
 }
